@@ -128,7 +128,9 @@ class MinimizeActionCosts(PlanQualityMetric):
         return (
             isinstance(other, MinimizeActionCosts)
             and self._default == other._default
-            and self._costs == other._costs
+            # actions are mutable: the dicts are rebuilt so that keys are hashed as they
+            # are now, not as they were when the metric was created
+            and dict(self._costs.items()) == dict(other._costs.items())
         )
 
     def __hash__(self):
